@@ -28,6 +28,11 @@ type lh struct {
 	// chain (and, in container/list, still claims to belong to the list); only its observers are
 	// compared from then on, because mutating calls with such a handle corrupt container/list itself
 	zombie []bool
+	// stale: the second search. Zombies stay in the table and ARE passed to every mutating call
+	// (container/list lets Remove/Move*/Insert* through for them: Len goes negative, the old chain is
+	// relinked); the fork must evolve exactly like container/list in these ill-formed states too.
+	// States whose reference Len leaves [-2, H] are pruned, a call that panics is pruned.
+	stale bool
 }
 
 func newLH(h int) *lh {
@@ -99,6 +104,9 @@ func elemStr(id string, v any) string {
 	if id == "?" {
 		return "?"
 	}
+	if v == nil {
+		v = 0 // a copy of a leaked root sentinel's Value (stale search): nil interface there, zero T here
+	}
 	return fmt.Sprintf("%s=%v", id, v)
 }
 
@@ -142,7 +150,7 @@ func (x *lh) Ops() []seqmc.Op {
 	room := x.room()
 	var live []int
 	for i := range x.he {
-		if !x.free[i] && !x.zombie[i] {
+		if !x.free[i] && (!x.zombie[i] || x.stale) {
 			live = append(live, i)
 		}
 	}
@@ -174,12 +182,30 @@ func (x *lh) Ops() []seqmc.Op {
 	return ops
 }
 
-func (x *lh) Apply(op seqmc.Op) *seqmc.Fail { return x.apply(op) }
+func (x *lh) Apply(op seqmc.Op) (fl *seqmc.Fail) {
+	if !x.stale {
+		return x.apply(op)
+	}
+	defer func() {
+		if recover() != nil {
+			fl = seqmc.Prune
+		}
+	}()
+	if fl := x.apply(op); fl != nil {
+		return fl
+	}
+	for _, r := range x.R {
+		if r.Len() < -2 || r.Len() > x.H {
+			return seqmc.Prune
+		}
+	}
+	return nil
+}
 
 func (x *lh) apply(op seqmc.Op) *seqmc.Fail {
 	// zombies are observed in the state right after the Init that orphaned them, then dropped
 	for i := range x.zombie {
-		if x.zombie[i] {
+		if x.zombie[i] && !x.stale {
 			x.he[i], x.hr[i], x.free[i], x.zombie[i] = nil, nil, true, false
 		}
 	}
@@ -212,7 +238,7 @@ func (x *lh) apply(op seqmc.Op) *seqmc.Fail {
 		return reg(l.InsertAfter(v, x.he[op.B]), r.InsertAfter(v, x.hr[op.B]), "InsertAfter")
 	case "Remove":
 		a, b := l.Remove(x.he[op.B]), r.Remove(x.hr[op.B])
-		if a != b.(int) {
+		if bv, _ := b.(int); a != bv {
 			return seqmc.Failf("Remove:result", "Remove returned %v, container/list %v", a, b)
 		}
 	case "MoveToFront":
@@ -304,7 +330,7 @@ func (x *lh) Observe() *seqmc.Fail {
 		if a, b := x.idE(x.he[i].Prev()), x.idR(x.hr[i].Prev()); a != b {
 			return seqmc.Failf("Element.Prev", "handle %d: Prev = %s, container/list %s", i, a, b)
 		}
-		if x.he[i].Value != x.hr[i].Value.(int) {
+		if rv, _ := x.hr[i].Value.(int); x.he[i].Value != rv {
 			return seqmc.Failf("Element.Value", "handle %d: Value = %v, container/list %v", i, x.he[i].Value, x.hr[i].Value)
 		}
 	}
@@ -594,6 +620,8 @@ func main() {
 	H := ev.Pick(r, 3, 4)
 	N := ev.Pick(r, 5, 6)
 	rl := seqmc.Explore(r, seqmc.Config{Name: "list", New: func() seqmc.Sys { return newLH(H) }})
+	rs := seqmc.Explore(r, seqmc.Config{Name: "list-stale", NoTwin: true, MaxDepth: ev.Pick(r, 6, 8), New: func() seqmc.Sys { x := newLH(3); x.stale = true; return x }})
+	r.Set("list_stale", fmt.Sprintf("handles=3 states=%d transitions=%d every history of at most %d calls (complete=%v)", rs.States, rs.Transitions, rs.MaxDepth, rs.Exhaustive))
 	rr := seqmc.Explore(r, seqmc.Config{Name: "ring", New: func() seqmc.Sys { return &rh{N: N} }})
 	famCalls := bigLists(r) + churnList(r)
 	ringSizes := []int{255, 256, 257, 1023, 1024, 1025, 4095, 4096, 4097, 8191, 8192, 8193, 16385, 65537, 70001}
